@@ -190,6 +190,7 @@ type Worker struct {
 	slot     []byte
 	seq      atomic.Uint64
 	curLen   atomic.Int64
+	idle     atomic.Bool // no case in flight (between units / finished)
 	gen      string
 	cur      Case
 	Local    map[string]interface{}
@@ -350,8 +351,10 @@ func (w *Worker) Do(c Case) {
 	w.journal(&c)
 	w.curLen.Store(int64(len(c.In) + len(c.S)))
 	w.seq.Add(1)
+	w.idle.Store(false)
 	w.cur = c
 	defer func() {
+		w.idle.Store(true)
 		if r := recover(); r != nil {
 			st := string(debug.Stack())
 			if len(st) > 1200 {
@@ -566,7 +569,9 @@ func (r *Run) watchdog(stop chan struct{}) {
 		}
 		for i, w := range r.ws {
 			s := w.seq.Load()
-			if s != last[i].seq {
+			if s != last[i].seq || w.idle.Load() {
+				// progress was made, or no case is in flight (a worker that ran
+				// out of units must not look like a hung one)
 				last[i] = st{s, now}
 				continue
 			}
